@@ -8,6 +8,10 @@ class Boom(Exception):
   pass
 
 
+class BaseBoom(BaseException):
+  """Not an Exception subclass, like gevent.Timeout and GreenletExit."""
+
+
 def _perms_with_pre(n):
   """Yield (pre_order, post_order): every subset completed before the call, in
   every order, and every order of the rest."""
@@ -25,7 +29,7 @@ class C17(BaseCheck):
           'completed before the call (in every order) x every completion order of the rest is '
           'executed for n<=4 (quick) / n<=7 (thorough), sampled for larger n; Unwrap chains of '
           'depth 0-6 with failure at each level and every completion order; ContinueWith/Map '
-          'with raising continuations, before/after completion, on_hub or not. The spec is '
+          'with raising continuations (Exception, a BaseException subclass, gevent.Timeout), before/after completion, on_hub or not. The spec is '
           'evaluated after every completion step with the loop run to idle. non-trivial = at '
           'least one step checked; distinct by (combinator, n, assignment)')
   ANCHORS = ('scales.asynchronous:AsyncResult.WhenAll', 'scales.asynchronous:AsyncResult.WhenAny',
@@ -55,11 +59,11 @@ class C17(BaseCheck):
         plan.append(('Unwrap', depth, fail_at, None))
     for on_hub in (True, False):
       for outcome in 'SF':
-        for fn_kind in ('value', 'raise', 'none'):
+        for fn_kind in ('value', 'raise', 'raise-base', 'raise-timeout', 'none'):
           for pre in (True, False):
             plan.append(('ContinueWith', on_hub, outcome + ':' + fn_kind, pre))
     for outcome in 'SF':
-      for fn_kind in ('value', 'raise', 'ar-value', 'ar-fail', 'ar-pending'):
+      for fn_kind in ('value', 'raise', 'raise-base', 'ar-value', 'ar-fail', 'ar-pending'):
         for pre in (True, False):
           plan.append(('Map', None, outcome + ':' + fn_kind, pre))
     return plan
@@ -238,6 +242,11 @@ class C17(BaseCheck):
         calls.append(ar_)
         if fn_kind == 'raise':
           raise Boom('cont')
+        if fn_kind == 'raise-base':
+          raise BaseBoom('cont')
+        if fn_kind == 'raise-timeout':
+          import gevent
+          raise gevent.Timeout(0.25)
         return 'cv' if fn_kind == 'value' else None
       src = AsyncResult()
       if pre:
@@ -257,7 +266,8 @@ class C17(BaseCheck):
       if len(calls) != 1 or calls[0] is not src:
         out.violate('ContinueWith:call-count', 'continuation ran %d times' % len(calls),
                     {'combinator': kind}, spec_s)
-      want = ('fail', {'cont'}) if fn_kind == 'raise' else ('ok', 'cv' if fn_kind == 'value' else None)
+      want = ('fail', {'cont'}) if fn_kind in ('raise', 'raise-base') else \
+        ('fail', {'0.25 seconds'}) if fn_kind == 'raise-timeout' else ('ok', 'cv' if fn_kind == 'value' else None)
       self._check(out, kind, want, self._observe(ret), {'case': spec_s, 'pre': pre, 'on_hub': on_hub})
       # a later, second completion attempt must not re-run it
       env.advance(0.01)
@@ -277,6 +287,8 @@ class C17(BaseCheck):
         calls.append(v)
         if fn_kind == 'raise':
           raise Boom('map')
+        if fn_kind == 'raise-base':
+          raise BaseBoom('map')
         if fn_kind.startswith('ar'):
           return inner
         return ('mapped', v)
@@ -305,7 +317,7 @@ class C17(BaseCheck):
           out.violate('Map:call-args', 'map fn calls: %r' % (calls,), {'combinator': kind}, spec_s)
         if fn_kind == 'value':
           want = ('ok', ('mapped', ('v', 0)))
-        elif fn_kind == 'raise':
+        elif fn_kind in ('raise', 'raise-base'):
           want = ('fail', {'map'})
         else:
           self._check(out, kind, ('pending', None), self._observe(ret), {'case': spec_s, 'phase': 'inner pending'})
